@@ -271,6 +271,7 @@ def run(ctx):
                              "rule": "case = (wait/wait-if/signal/broadcast/set-flag/read programs per fiber, schedule)"})
         if (not ok or ctx.failures) and not ctx.violations:
             search(ctx, exe)
+    core.init_contract(ctx, ["fiber_cond"])  # rt/h_init.c: real init on dirty memory
     core.finish(ctx, extra_assumptions=ASSUME)
 
 
@@ -291,6 +292,8 @@ def search(ctx, exe):
 
 
 def replay(ctx, payload):
+    if payload.get("harness") == "h_init":
+        return core.replay_init(ctx, payload)
     exe = build(ctx)
     c = payload.get("case")
     if not exe or not c:
